@@ -1,2 +1,4 @@
 pub mod boolean;
 pub mod splay;
+#[cfg(feature = "verif-hooks")]
+pub mod verif;
